@@ -25,6 +25,10 @@ fn main() {
 }
 
 fn run(args: &Args, mon: &mut vcommon::mon::Monitor) {
+    if args.mode.as_deref() == Some("cmp") {
+        // trace comparison is shared by C07 and C20
+        return c07::run(mon, args);
+    }
     match args.prop.as_str() {
         "C07" => c07::run(mon, args),
         "C08" => c08::run(mon, args),
